@@ -184,14 +184,14 @@ pub fn after_step(w: &mut MWorld, _info: &SimInfo) -> Option<Violation> {
         let creating = w.n_inflight_creates();
         let max = w.sc.pool.max_size;
         if live + creating > max {
-            return Some(Violation::new(
+            return Some(crate::engine::violation(
                 "C01",
                 "live_over_limit",
                 format!("{live} objects exist and {creating} are being created, max_size is {max}"),
             ));
         }
         if w.n_out() > max {
-            return Some(Violation::new(
+            return Some(crate::engine::violation(
                 "C01",
                 "out_over_limit",
                 format!("{} objects are checked out, max_size is {max}", w.n_out()),
@@ -244,7 +244,7 @@ fn c11_plausible(w: &mut MWorld, _sn: &Snap) -> Option<Violation> {
         + w.sc.actors.len()
         + w.objs.len()
         + 8;
-    let mk = |clause: &str, d: String| Some(Violation::new("C11", clause, d));
+    let mk = |clause: &str, d: String| Some(crate::engine::violation("C11", clause, d));
     if st.size > existing + creating {
         return mk(
             "size_le_existing",
@@ -312,7 +312,7 @@ pub fn quiescent(w: &mut MWorld, info: &SimInfo) -> Option<Violation> {
                 .saturating_sub(wt.past.len());
             if !wt.waiting.is_empty() && free > 0 {
                 w.cnt.probe("stranded_waiter_detected");
-                return Some(Violation::new(
+                return Some(crate::engine::violation(
                     "C02",
                     "stranded_waiter",
                     format!(
@@ -330,7 +330,7 @@ pub fn quiescent(w: &mut MWorld, info: &SimInfo) -> Option<Violation> {
             }
         }
         if closed && !wt.waiting.is_empty() {
-            return Some(Violation::new(
+            return Some(crate::engine::violation(
                 "C02",
                 "waiter_on_closed_pool",
                 format!("{} caller(s) still wait for a slot after close() returned", wt.waiting.len()),
@@ -366,7 +366,7 @@ pub fn c11_exact(w: &mut MWorld, wt: &Waiters, when: &str) -> Option<Violation> 
         waiting: wt.waiting.len(),
     };
     if st != exp {
-        return Some(Violation::new(
+        return Some(crate::engine::violation(
             "C11",
             "exact_at_rest",
             format!("at {when} point status() = {:?}, ground truth = {:?}", st, exp),
@@ -455,13 +455,13 @@ pub fn final_checks(w: &mut MWorld, probe_err: Option<String>) -> Option<Violati
             "C02" | "C03" | "C07" | "C09" => p.as_str(),
             _ => "C02",
         };
-        return Some(Violation::new(prop, "capacity_probe", e));
+        return Some(crate::engine::violation(prop, "capacity_probe", e));
     }
     if let Some(sn) = snapshot(w) {
         if matches!(p.as_str(), "C02" | "C03") && !closed {
             let max = w.cur_max_size();
             if sn.s.permits != max || sn.s.users != 0 || sn.s.size != sn.s.idle {
-                return Some(Violation::new(
+                return Some(crate::engine::violation(
                     &p,
                     "books_at_end",
                     format!(
